@@ -1,11 +1,16 @@
 """R-GATE: must-check-before-accept, decided by structured-control-flow dominance over the facts tree.
 
-A *gate* on a context expression X inside a checker function f is an `if` whose condition
-tests P(X) and whose failing branch reports an error (reaches handleError / handle_error).
-The gate guards acceptance iff every enclosing condition on the way from f's body to the
-gate is itself an allowed guard: a non-emptiness test of X, a successful checkExpression(X) /
-checkType, or the passing side of an earlier gate on the same X (else-if chain).
+A *gate* on a context expression X inside a checker function f is an `if` whose condition C is a
+boolean formula over predicate calls P_i(X_i) such that whenever the violating valuation holds
+(e.g. is_guard(X) false, or X.changes_any_variable() true) C is true, and whose then-branch
+reports an error.  The gate guards acceptance iff
+  * every enclosing condition on the way from f's body to the gate is an allowed guard (a
+    non-emptiness test of X, a successful checkExpression(X)/checkType, or the passing side of an
+    earlier error-reporting test), and
+  * no statement before the gate on that path leaves the function / loop iteration silently.
 """
+import itertools
+
 from ..facts import walk, short
 
 
@@ -30,6 +35,8 @@ def path_of(e, aliases=None):
         a = e.get("args", [{}])[0]
         i = a.get("v") if a.get("k") == "int" else short(a)
         return p + ("[%s]" % i,) if p else None
+    if k == "call" and e.get("ck") == "op" and e.get("op") in ("->", "*") and e.get("recv") is not None:
+        return path_of(e["recv"], aliases)
     if k == "call" and e.get("ck") == "member" and e.get("name") in ("get",) and e.get("args"):
         p = path_of(e.get("recv"), aliases)
         a = e["args"][0]
@@ -45,16 +52,28 @@ def path_of(e, aliases=None):
 
 
 def collect_aliases(fn):
-    """local id -> member path, for `auto& inv = loc.invariant;` style declarations."""
+    """local id -> member path, for `auto& inv = loc.invariant;` style declarations (and structured bindings
+    are left alone)."""
     al = {}
     for n in walk(fn["body"]):
         if n.get("k") == "decl":
             for v in n["vars"]:
-                if v.get("init") is not None:
+                if v.get("init") is not None and "&" in v.get("t", "") and "&&" not in v.get("t", ""):
                     p = path_of(v["init"], al)
-                    if p and len(p) >= 1 and ("&" in v.get("t", "") or True):
+                    if p:
                         al[v["id"]] = p
     return al
+
+
+def bool_locals(fn):
+    """local id -> initialiser, for `bool computable = isCompileTimeComputable(argument);`"""
+    out = {}
+    for n in walk(fn["body"]):
+        if n.get("k") == "decl":
+            for v in n["vars"]:
+                if v.get("init") is not None and v.get("ct", "").replace("const ", "") == "bool":
+                    out[v["id"]] = v["init"]
+    return out
 
 
 def call_subject(c, aliases):
@@ -71,84 +90,145 @@ def has_error_report(n):
     return any(c.get("k") == "call" and c.get("name") in ("handleError", "handle_error") for c in walk(n))
 
 
-def polarity(cond, target):
-    """+1 if the then-branch runs when `target` (a call node inside cond) is TRUE, -1 if when FALSE,
-    0 if not decidable from the shape."""
-    if cond is target:
-        return 1
-    k = cond.get("k")
-    if k == "un" and cond.get("op") == "!":
-        return -polarity(cond["e"], target)
-    if k in ("cast", "construct"):
-        for x in ([cond.get("e")] if k == "cast" else cond.get("args", [])):
-            if x is not None and any(y is target for y in walk(x)):
-                return polarity(x, target)
-    if k == "bin" and cond.get("op") in ("||", "&&"):
-        for side in ("lhs", "rhs"):
-            if any(y is target for y in walk(cond[side])):
-                p = polarity(cond[side], target)
-                # a || b runs then when either is true; a && b only when both: the gate still decides
-                # the error branch for `||`; for `&&` the other conjunct can mask it
-                return p if cond["op"] == "||" else 0
-    return 0
+def has_exit(n):
+    """Does the statement contain a return / continue / break / throw (outside nested lambdas)?"""
+    return any(x.get("k") in ("return", "continue", "break", "throw", "goto") for x in walk(n))
+
+
+# ---------------------------------------------------------------------- boolean formulas over predicate atoms
+def formula(e, aliases, blocals, depth=0):
+    """-> (function(assign)->bool, set(atom keys)).  Atom key = (predicate name, subject path)."""
+    k = e.get("k")
+    if k == "bool":
+        v = bool(e["v"])
+        return (lambda a: v), set()
+    if k == "un" and e.get("op") == "!":
+        f, s = formula(e["e"], aliases, blocals, depth)
+        return (lambda a: not f(a)), s
+    if k == "bin" and e.get("op") in ("&&", "||"):
+        f1, s1 = formula(e["lhs"], aliases, blocals, depth)
+        f2, s2 = formula(e["rhs"], aliases, blocals, depth)
+        if e["op"] == "&&":
+            return (lambda a: f1(a) and f2(a)), s1 | s2
+        return (lambda a: f1(a) or f2(a)), s1 | s2
+    if k in ("cast",):
+        return formula(e["e"], aliases, blocals, depth)
+    if k == "construct" and len(e.get("args", [])) == 1:
+        return formula(e["args"][0], aliases, blocals, depth)
+    if k == "ref" and e.get("id") in blocals and depth < 6:
+        return formula(blocals[e["id"]], aliases, blocals, depth + 1)
+    if k == "call":
+        key = (e.get("name") or e.get("op"), call_subject(e, aliases))
+        return (lambda a: a[key]), {key}
+    key = ("?", short(e)[:80])
+    return (lambda a: a[key]), {key}
 
 
 class Gate:
-    def __init__(self, fn, ifnode, call, subject, pol, guards, reports):
-        self.fn, self.ifnode, self.call, self.subject, self.pol, self.guards, self.reports = \
-            fn, ifnode, call, subject, pol, guards, reports
+    def __init__(self, fn, ifnode, f, atoms, guards, reports, silent_exit):
+        self.fn, self.ifnode, self.f, self.atoms, self.guards, self.reports, self.silent_exit = \
+            fn, ifnode, f, atoms, guards, reports, silent_exit
 
     @property
     def where(self):
-        return "%s:%s" % (self.fn["file"], self.call.get("l"))
+        return "%s:%s" % (self.fn["file"], self.ifnode.get("l"))
+
+    def implied_by(self, violation, fixed=None):
+        """Is the condition true for every valuation of its atoms that agrees with `violation`
+        (dict atom->bool) and with the benign defaults?"""
+        fixed = dict(fixed or {})
+        for a in self.atoms:
+            if a in violation:
+                continue
+            if a[0] in ("checkExpression", "checkType") and a not in fixed:
+                fixed[a] = True            # the expression type-checks (otherwise an error was reported)
+            if a[0] == "empty" and a not in fixed:
+                fixed[a] = False
+        free = [a for a in self.atoms if a not in violation and a not in fixed]
+        if len(free) > 12:
+            return False
+        for vals in itertools.product((True, False), repeat=len(free)):
+            asg = dict(fixed)
+            asg.update(violation)
+            asg.update(zip(free, vals))
+            try:
+                if not self.f(asg):
+                    return False
+            except KeyError:
+                return False
+        return True
 
 
-def find_gates(fn, pred_names, aliases=None):
-    """All `if` nodes of fn whose condition calls one of pred_names; with the chain of enclosing conditions."""
+def find_gates(fn, aliases=None, blocals=None):
+    """All error-reporting `if` nodes of fn with their condition formula and the chain of enclosing conditions."""
     aliases = aliases if aliases is not None else collect_aliases(fn)
+    blocals = blocals if blocals is not None else bool_locals(fn)
     out = []
 
-    def rec(n, guards):
+    def rec(n, guards, silent):
         if isinstance(n, list):
+            s = silent
             for x in n:
-                rec(x, guards)
+                if isinstance(x, dict) and x.get("k") in ("case", "default"):
+                    s = silent          # reached by the switch jump, not by falling past an earlier break
+                rec(x, guards, s)
+                # a statement that can leave silently poisons everything after it in this block
+                if isinstance(x, dict) and x.get("k") == "if" and has_exit(x) and not _exit_allowed(x, aliases):
+                    s = s or x
+                elif isinstance(x, dict) and x.get("k") in ("return", "continue", "break"):
+                    s = s or x
             return
         if not isinstance(n, dict):
             return
-        if n.get("k") == "if":
-            cond = n["c"]
-            for c in walk(cond):
-                if c.get("k") == "call" and c.get("name") in pred_names:
-                    subj = call_subject(c, aliases)
-                    pol = polarity(cond, c)
-                    # failing side: predicate is a "must hold" (pol -1 -> then is the failing branch) or a
-                    # "must not hold" (pol +1 -> then is the failing branch); either way the then-branch
-                    # is where the condition's truth leads, so it must report.
-                    out.append(Gate(fn, n, c, subj, pol, list(guards), has_error_report(n["then"])))
-            rec(n.get("init"), guards)
-            rec(n["then"], guards + [(n, "then")])
-            rec(n.get("else"), guards + [(n, "else")])
+        k = n.get("k")
+        if k == "if":
+            f, atoms = formula(n["c"], aliases, blocals)
+            out.append(Gate(fn, n, f, atoms, list(guards), has_error_report(n["then"]), silent))
+            rec(n.get("init"), guards, silent)
+            rec(n["then"], guards + [(n, "then")], silent)
+            rec(n.get("else"), guards + [(n, "else")], silent)
             return
-        if n.get("k") == "lambda":
+        if k == "lambda":
+            return
+        if k == "block":
+            rec(n.get("s", []), guards, silent)
             return
         for key, v in n.items():
             if isinstance(v, (dict, list)):
-                rec(v, guards)
-    rec(fn["body"], [])
+                rec(v, guards, silent)
+    rec(fn["body"], [], None)
     return out
+
+
+def _exit_allowed(ifnode, aliases):
+    """An early exit is harmless if its branch reports an error or is taken because type checking failed."""
+    if has_error_report(ifnode["then"]) and (ifnode.get("else") is None or not has_exit(ifnode["else"])):
+        return True
+    c = ifnode["c"]
+    neg = False
+    while c.get("k") == "un" and c.get("op") == "!":
+        c = c["e"]
+        neg = not neg
+    if c.get("k") == "call" and c.get("name") in ("checkExpression", "checkType") and neg:
+        return True
+    if c.get("k") == "call" and c.get("name") == "empty" and not neg:
+        return True          # nothing to check
+    return False
 
 
 def guard_allowed(ifnode, side, subject, aliases, extra_ok=()):
     """Is an enclosing condition an allowed guard for accepting `subject`?"""
     cond = ifnode["c"]
     if side == "else":
-        # passing side of an earlier error-reporting test (else-if chain)
-        return has_error_report(ifnode["then"])
-    # then-side: every conjunct must be about the subject: !X.empty(), checkExpression(X), or a listed predicate
+        return has_error_report(ifnode["then"]) or _cond_benign(cond, subject, aliases, negate=True, extra_ok=extra_ok)
+    return _cond_benign(cond, subject, aliases, negate=False, extra_ok=extra_ok)
+
+
+def _cond_benign(cond, subject, aliases, negate, extra_ok):
     conj = []
 
     def flat(c):
-        if c.get("k") == "bin" and c.get("op") == "&&":
+        if c.get("k") == "bin" and c.get("op") == ("||" if negate else "&&"):
             flat(c["lhs"])
             flat(c["rhs"])
         else:
@@ -156,7 +236,7 @@ def guard_allowed(ifnode, side, subject, aliases, extra_ok=()):
     flat(cond)
     for c in conj:
         core = c
-        neg = False
+        neg = negate
         while core.get("k") == "un" and core.get("op") == "!":
             core = core["e"]
             neg = not neg
@@ -168,5 +248,27 @@ def guard_allowed(ifnode, side, subject, aliases, extra_ok=()):
                     continue
                 if name in ("checkExpression", "checkType") + tuple(extra_ok) and not neg:
                     continue
+        if core.get("k") == "ref" and core.get("t", "").endswith("*") and not neg:
+            continue        # the object the context expression belongs to exists (`if (auto* d = ...; d)`)
         return False
     return True
+
+
+def gated(fn, subject, pred, must_hold, aliases=None, extra_ok=(), extra_violation=None, gates=None):
+    """Find a gate of `fn` that rejects `subject` when pred(subject) is `not must_hold`.
+    Returns (gate or None, candidates examined)."""
+    aliases = aliases if aliases is not None else collect_aliases(fn)
+    gs = gates if gates is not None else find_gates(fn, aliases)
+    key = (pred, subject)
+    cands = [g for g in gs if key in g.atoms]
+    for g in cands:
+        if not g.reports or g.silent_exit is not None:
+            continue
+        viol = {key: (not must_hold)}
+        if extra_violation:
+            viol.update(extra_violation)
+        if not g.implied_by(viol):
+            continue
+        if all(guard_allowed(i, s, subject, aliases, extra_ok) for i, s in g.guards):
+            return g, cands
+    return None, cands
